@@ -34,4 +34,5 @@ for pid in sys.argv[2:]:
                 for c in BYFILE.get(f, []):
                     if c not in checks:
                         checks.append(c)
-            sh("python3 tools/seeded.py run %s %s" % (name, " ".join(checks)))
+            limit = int(os.environ.get("BENIGN_CHECKS", "99"))
+            sh("python3 tools/seeded.py run %s %s" % (name, " ".join(checks[:limit])))
